@@ -596,6 +596,7 @@ func propC05(c *Ctx) {
 	c.ruleValidatorsComplete()
 	c.ruleUpdateKeepsEntry()
 	c.ruleTagListDistinct()
+	c.ruleExpandedTree() // path variables and tags of pasted resources exist only if the collectors read the expanded list
 	c.ruleResponseCodeGate("C05-RESPONSE-CODE-GATE")
 	c.ruleJsightFirst() // the catalog's jsight version is only ever set by a JSIGHT directive, which must be there and first
 }
